@@ -62,6 +62,8 @@ impl Event {
     /// when `poll` got a Normal event, should always call it first
     fn continue_bottom(&mut self) {
         if let Some(co) = self.co.take() {
+            #[cfg(may_verif)]
+            may_queue::verif::point(may_queue::verif::site::CQ_POLL_BOTTOM, 0);
             run_coroutine(co);
         }
     }
@@ -120,6 +122,8 @@ impl EventSource for EventSender<'_> {
             kind: EventKind::Normal,
             co: Some(co),
         });
+        #[cfg(may_verif)]
+        may_queue::verif::point(may_queue::verif::site::CQ_SEND_SUB_PUSHED, 0);
         if let Some(w) = self.cqueue.to_wake.take() {
             w.unpark();
         }
@@ -140,7 +144,11 @@ impl Drop for EventSender<'_> {
             kind: EventKind::Done,
             co: None,
         });
+        #[cfg(may_verif)]
+        may_queue::verif::point(may_queue::verif::site::CQ_DROP_PUSHED, 0);
         self.cqueue.cnt.fetch_sub(1, Ordering::Relaxed);
+        #[cfg(may_verif)]
+        may_queue::verif::point(may_queue::verif::site::CQ_DROP_SUBBED, 0);
         if let Some(w) = self.cqueue.to_wake.take() {
             w.unpark();
         }
@@ -245,6 +253,8 @@ impl Cqueue {
             match self.ev_queue.pop() {
                 Some(mut ev) => run_ev!(ev),
                 None => {
+                    #[cfg(may_verif)]
+                    may_queue::verif::point(may_queue::verif::site::CQ_POLL_EMPTY, self as *const _ as usize);
                     if self.cnt.load(Ordering::Relaxed) == 0 {
                         return Err(PollError::Finished);
                     }
@@ -254,6 +264,8 @@ impl Cqueue {
             let cur = Blocker::current();
             // register the waiter
             self.to_wake.store(cur.clone());
+            #[cfg(may_verif)]
+            may_queue::verif::point(may_queue::verif::site::CQ_POLL_REGISTERED, self as *const _ as usize);
             // re-check the queue
             match self.ev_queue.pop() {
                 None => {
@@ -293,6 +305,8 @@ impl Drop for Cqueue {
         //     return;
         // }
 
+        #[cfg(may_verif)]
+        may_queue::verif::point(may_queue::verif::site::CQ_DROP_CANCELLED, self as *const _ as usize);
         // run the rest event
         loop {
             match self.poll(None) {
